@@ -147,11 +147,13 @@ def check_source(src, globs):
 
 
 def tripped():
-    p = TRIP % os.getpid()
-    if os.path.exists(p):
-        os.unlink(p)
-        return True
-    return False
+    hit = False
+    # (a generated module that turns '/' into '_' runs the payload with a relative name: look for that file too)
+    for p in (TRIP % os.getpid(), (TRIP % os.getpid()).replace("/", "_")):
+        if os.path.exists(p):
+            os.unlink(p)
+            hit = True
+    return hit
 
 
 # ---- doors -----------------------------------------------------------------------------------------------------------------
